@@ -13,7 +13,7 @@ oracle-decided extrapolation references are extra ranked values inserted by the 
      MscStepToGeo / MscStepFromGeo with a real UrbanMscHelper.
   3. spec/GridTrace.tla validates every record (parallel TLC shards).
 Named deviations (counted by the spec, scoped, never hidden) are matched against
-known_findings.json; until an entry exists they are printed as PROPOSED-FINDING.
+known_findings.json; a deviation that is hit without an entry there is a VIOLATION.
 """
 import json
 import os
@@ -172,13 +172,8 @@ def run(ctx):
         n = tot.get(key, 0)
         if not n:
             continue
-        tags = {"deviation": tag}
-        if ctx.match_known(tags) is not None:
-            ctx.violation("%d hits of named deviation %s" % (n, tag), tags=tags)
-        else:
-            # not (yet) in known_findings.json: counted, scoped by the spec, reported -- not hidden
-            print("PROPOSED-FINDING: property=C14 %s (%s, %d hits): %s" % (fid, tag, n, text))
-            proposed[fid] = {"deviation": tag, "hits": n}
+        # listed in known_findings.json -> KNOWN-FINDING; not listed -> VIOLATION (never silently passed)
+        ctx.violation("%d hits of named deviation %s (%s): %s" % (n, tag, fid, text), tags={"deviation": tag})
 
     uncovered = [
         "device (CUDA/HIP) execution of the calculators: host only",
